@@ -87,7 +87,7 @@ func TestC14KnownFindings(t *testing.T) {
 	}
 
 	// request-body-close-race (net/http; listed for C14 so that its exact signature is re-run, see C01)
-	if n := proxyRaceRetries + boundaryRaceRetries; n > 0 && lab.Open(keyRace) {
+	if n := proxyRaceRetries + boundaryRaceRetries; lab.Open(keyRace) {
 		lab.KnownFinding(keyRace, fmt.Sprintf("schedule-dependent net/http abort of a proxied request with a body (see C01) manifested %d time(s) in shard 0 of this run, each re-run cleanly", n))
 	}
 }
